@@ -261,6 +261,15 @@ func main() {
 			fmt.Fprintln(os.Stderr, "replay: no scenario in", f.Replay, err)
 			os.Exit(3)
 		}
+		if st := rp.Case.Scenario.Steps; len(st) == 1 && st[0].Op == "stress" {
+			fs, got := Stress(st[0].N, st[0].Chans, 60*time.Second)
+			res.Count("stress-replay", got > 0)
+			for _, fd := range fs {
+				res.Violate(fd.ID, fd.What, rp.Case)
+			}
+			res.Write(f.Out)
+			return
+		}
 		runOne(rp.Case.Scenario, rp.Case.Seed)
 		res.Write(f.Out)
 		return
@@ -279,6 +288,21 @@ func main() {
 	}
 	res.Exhaustive = false // exhaustive only for the churn family (see distribution family:churn-exhaustive)
 	res.Note(fmt.Sprintf("churn family is exhaustive: all valid sequences over {Subscribe, cancel(i), Broadcast} of length <= %d with <= 3 subscribers that contain a join after a leave and end with a Broadcast", churnLen))
+	// stress: a later Broadcast must never overtake the value a forwarder holds (monitors only)
+	stressN, stressRuns := 3000, 2
+	if f.Tier == "thorough" {
+		stressN, stressRuns = 20000, 3
+	}
+	for i := 0; i < stressRuns; i++ {
+		readers := 1 + i%2
+		fs, got := Stress(stressN, readers, 60*time.Second)
+		res.Hit("family:stress")
+		res.Hit(fmt.Sprintf("stress-values-received:%d", got))
+		res.Count(fmt.Sprintf("stress-%d-%d-%d", stressN, readers, i), got > 0)
+		for _, fd := range fs {
+			res.Violate(fd.ID, fd.What, map[string]any{"scenario": Scenario{Family: "stress", Steps: []Step{{Op: "stress", N: stressN, Chans: readers}}}})
+		}
+	}
 	nrand := 120
 	if f.Tier == "thorough" {
 		nrand = 1200
